@@ -9,7 +9,7 @@ ENV = dict(os.environ, GOFLAGS="-mod=mod", GOPROXY="off", GOSUMDB="off", GOTOOLC
 ap = argparse.ArgumentParser()
 ap.add_argument("--classes", default="hole,facts,untriaged")
 ap.add_argument("--full", action="store_true")
-ap.add_argument("--owners")
+ap.add_argument("--owners"); ap.add_argument("--tag", default="0")
 a = ap.parse_args()
 classes = set(a.classes.split(","))
 tri = {}
@@ -17,24 +17,24 @@ for tp in sorted(glob.glob(V + "/mut/triage.d/*.json")):
     tri.update(json.load(open(tp)))
 todo = []
 for sp in sorted(glob.glob(V + "/mut/survivors/*.jsonl")):
-    if a.owners and os.path.basename(sp)[:-6] not in a.owners.split(","): continue
+    if a.owners and os.path.basename(sp).split(".")[0] not in a.owners.split(","): continue
     for l in open(sp):
         d = json.loads(l)
         c = tri.get(d["key"], {}).get("class", "untriaged")
         if c in classes: d["class"] = c; todo.append(d)
 print(len(todo), "mutants to re-run", flush=True)
-wt = "/tmp/mut-recheck-wt"
+wt = "/tmp/mut-recheck-wt-" + a.tag
 subprocess.run(["git", "-C", "/repo", "worktree", "remove", "--force", wt], capture_output=True)
 subprocess.run(["git", "-C", "/repo", "worktree", "add", "--detach", wt, "HEAD"], capture_output=True)
-out = open(V + "/mut/recheck.jsonl", "a")
+out = open(V + "/mut/recheck.jsonl", "a")   # appended line by line (O_APPEND): several instances may run in parallel
 for d in todo:
     src = subprocess.run([V + "/build/mutgen", "-file", "/repo/" + d["file"], "-apply", str(d["id"])], capture_output=True, text=True).stdout
     open(os.path.join(wt, d["file"]), "w").write(src)
     res = dict(file=d["file"], id=d["id"], key=d["key"], checks={}, full=a.full, cls=d["class"])
     for p in d["checks"]:
         env = dict(ENV, VERIF_REPO=wt)
-        if not a.full: env.update(VERIF_BUILD="/tmp/mut-recheck-b", VERIF_OUT="/tmp/mut-recheck-o")
-        else: env.update(VERIF_OUT="/tmp/mut-recheck-o")
+        if not a.full: env.update(VERIF_BUILD="/tmp/mut-recheck-b-" + a.tag, VERIF_OUT="/tmp/mut-recheck-o-" + a.tag)
+        else: env.update(VERIF_OUT="/tmp/mut-recheck-o-" + a.tag)
         cmd = ["python3", V + "/check.py", p] + ([] if a.full else ["--skip-proofs"])
         try:
             r = subprocess.run(cmd, cwd=V, env=env, capture_output=True, text=True, timeout=2400)
